@@ -288,6 +288,33 @@ func TestC38(t *testing.T) {
 			}
 		}
 		rec.EvalN(256)
+		// (4b) coarse corruptions: a whole byte replaced, two proofs' halves, random (c,s) behind a valid Gamma
+		nCoarse := 0
+		for i := 0; i < 24; i++ {
+			p2 := append([]byte(nil), proof...)
+			pos := rapid.IntRange(0, 79).Draw(rt, "corruptPos")
+			nb := rapid.Byte().Draw(rt, "corruptByte")
+			if p2[pos] == nb {
+				continue
+			}
+			p2[pos] = nb
+			if i%3 == 2 {
+				copy(p2[32:], rapid.SliceOfN(rapid.Byte(), 48, 48).Draw(rt, "randomCS"))
+				p2[79] &= 0x0f
+				if bytes.Equal(p2, proof) {
+					continue
+				}
+			}
+			nCoarse++
+			if acc, how, o := vrfAccepts(pk, p2, alpha); acc {
+				cs["tampered_proof"] = evi.Hex(p2)
+				if !rec.Fail(rt, "accept:proof-corruption", fmt.Sprintf("corrupted proof accepted: %s, output %x", how, o), cs) {
+					return
+				}
+			}
+		}
+		rec.EvalN(nCoarse)
+		rec.ClassN("coarse_corruptions", nCoarse)
 		// (5) message changes
 		nbits := len(alpha) * 8
 		var msgs [][]byte
